@@ -4,6 +4,7 @@ from __future__ import annotations
 import hashlib
 import json
 import os
+import re
 import time
 from dataclasses import dataclass, field
 from typing import Any, Dict, List, Optional, Set
@@ -122,9 +123,21 @@ def classify(rep: Report, known: Optional[List[Dict[str, Any]]] = None):
     known = load_known() if known is None else known
     table = {(k["property"], k["rule"], k["key"]): k for k in known if k.get("status") == "known"}
     kn, new = [], []
+    renames = getattr(rep, "renamed_units", {}) or {}
+
+    def canonical(key: str) -> str:
+        # a known finding is keyed by the construct; if the unit it names was merely renamed (recognised by its
+        # substance, sa/inline.py) the finding is still the same one
+        for new_name, old_name in renames.items():
+            key = re.sub(rf"(?<![\w]){re.escape(new_name)}(?![\w])", old_name, key)
+        return key
+
     for o in rep.findings():
-        if (rep.prop, o.rule, o.key) in table:
-            kn.append((o, table[(rep.prop, o.rule, o.key)]))
+        k = (rep.prop, o.rule, o.key)
+        if k not in table:
+            k = (rep.prop, o.rule, canonical(o.key))
+        if k in table:
+            kn.append((o, table[k]))
         else:
             new.append(o)
     return kn, new
